@@ -70,6 +70,8 @@ pub struct Stats {
     pub total: usize,
     /// largest single request
     pub largest: usize,
+    /// bytes allocated minus bytes freed over the whole call (what the callee keeps, or releases when negative)
+    pub net: isize,
 }
 
 /// measure heap use of `f` on this thread (nesting is not supported)
@@ -88,7 +90,7 @@ pub fn measure<T>(f: impl FnOnce() -> T) -> (T, Stats) {
     let off = Off;
     let r = f();
     drop(off);
-    let st = Stats { peak: PEAK.with(|p| p.get()).max(0) as usize, total: TOTAL.with(|t| t.get()), largest: LARGEST.with(|t| t.get()) };
+    let st = Stats { peak: PEAK.with(|p| p.get()).max(0) as usize, total: TOTAL.with(|t| t.get()), largest: LARGEST.with(|t| t.get()), net: LIVE.with(|l| l.get()) };
     (r, st)
 }
 
